@@ -18,6 +18,7 @@ deriving Repr, DecidableEq
 def showOut : Out → String
   | .added => "ok" | .rejected => "panic" | .cancelDone => "ok" | .badHandle => "bad-handle"
   | .fetched v t => s!"{v}@{t}" | .empty => "panic" | .internal => "internal"
+  | .peeked none => "none" | .peeked (some t) => s!"{t}"
 
 def showObs (o : Obs) : String := s!"{showOut o.out},len={o.len},time={o.time},empty={if o.empty then 1 else 0}"
 
@@ -43,6 +44,11 @@ def parseLine (line : String) : Option (Op × Obs) :=
       match k.toNat? with
       | some k => if ans = "ok" then mk (.cancel k) .cancelDone else mk (.cancel k) .internal
       | none => none
+    | ["peek"] =>
+      if ans = "none" then mk .peek (.peeked none)
+      else match ans.toNat? with
+        | some t => mk .peek (.peeked (some t))
+        | none => none
     | ["fetch"] =>
       if ans = "panic" then mk .fetch .empty
       else match ans.splitOn "@" with
